@@ -14,7 +14,8 @@ RULE = ("Hypothesis-generated: N in 1..5, N*m<=50, arbitrary (mostly asymmetric)
         "floor(x*T)/T exactly; (backward) y uniform in the box, on cell boundaries, on faces and corners, at cell "
         "centres, given as float array, float list or integer-valued list: inverse(y) is a multiple of 1/T in [0,1) "
         "and image(inverse(y)) is within half a cell per axis of y; GetPreimages == GetInverseImage; N=1: both maps "
-        "affine within 4 ulp*scale. Plus exhaustive round trip over all cells of all (N,m) with N*m<=18 (quick) / 22 "
+        "affine within 4 ulp*scale; the object is configured through the constructor (one new object per query), or "
+        "ONE object configured through SetBounds / driven through a query history answers all queries. Plus exhaustive round trip over all cells of all (N,m) with N*m<=18 (quick) / 22 "
         "(thorough). Non-trivial: N>=2 and (y not a cell centre, or x not a subinterval left end).")
 ASSUMPTIONS = [
     "forward round trip through a non-unit box asserted only where the affine map's rounding allowance is below "
